@@ -931,6 +931,18 @@ package schema
 //@   ensures u.reCache != nil && u.reSubExpNames != nil
 //@   assigns u.reCache, u.reSubExpNames, u.sortedMultipliersCache
 
+// formatting: every count is computed by exact integer floor division, so the amount still to be printed never
+// becomes negative and never grows (a float64 quotient rounds dividends above 2^53 and can be one too large)
+//@ func floorDiv(a, b) -> q
+//@   requires b > 0
+//@   ensures a >= 0 ==> q >= 0 && q * b <= a && a - q * b < b
+//@ func UnitsDefinition.FormatShortInt(u, data) -> res
+//@   scope data > 0
+//@   loop 1 invariant 0 <= remainder && remainder <= data
+//@ func UnitsDefinition.FormatLongInt(u, data) -> res
+//@   scope data > 0
+//@   loop 1 invariant 0 <= remainder && remainder <= data
+
 //@ func UnitsDefinition.ParseInt(u, data) -> res, err
 //@   ensures true
 //@ func UnitsDefinition.ParseFloat(u, data) -> res, err
